@@ -365,6 +365,33 @@ func ruleC02Protocol(c *ctx.Ctx, r *core.Reporter) {
 	// the case counter is advanced for every blocking call
 	src := nodeString(c, blk.Body)
 	r.Check(strings.Contains(src, "resumeCase := fc.caseCounter") && strings.Contains(src, "fc.caseCounter++"), "protocol:fresh-case", c.Pos(blk.Pos()), "each blocking call takes a fresh case number")
+	// a return whose deferred calls may suspend is replayed on resumption (`case N: return v`): whatever it
+	// returns must have been computed once, before the deferred calls ran, and saved in the frame
+	if ts := c.FuncDecl("compiler", "funcContext.translateStmt"); ts != nil {
+		if arm := armOf(ts, "*ast.ReturnStmt"); arm != nil {
+			ms := findGoPattern(arm, `if µv != "" { µt := µfc.newLocalVariable(µ_); µfc.Printf("%s =%s;", µt, µv); µv = " " + µt }`)
+			replay := findGoPattern(arm, `µfc.Printf("$s = %[1]d; case %[1]d: return%[2]s;", µn, µv)`)
+			ok := len(ms) == 1 && len(replay) == 1 && ms[0].Env["µv"] == replay[0].Env["µv"] && ms[0].Node.Pos() < replay[0].Node.Pos()
+			r.Check(ok, "return:replay-reads-saved-temp", c.Pos(arm.Pos()), "a blocking return stores every non-empty result expression in a fresh frame variable — unconditionally — and the replayed `case N: return` reads that variable (a deferred call that suspends may have changed anything the expression mentions)")
+			// between the save and the replay nothing reassigns the spliced value
+			if ok {
+				n := 0
+				ast.Inspect(arm, func(x ast.Node) bool {
+					if as, isAs := x.(*ast.AssignStmt); isAs && as.Pos() > ms[0].Node.End() && as.Pos() < replay[0].Node.Pos() {
+						for _, l := range as.Lhs {
+							if exprStr(l) == ms[0].Env["µv"] {
+								n++
+							}
+						}
+					}
+					return true
+				})
+				r.Check(n == 0, "return:replay-not-overwritten", c.Pos(arm.Pos()), "the saved value is not replaced between the save and the replayed return")
+			}
+		} else {
+			r.Undecided("return:replay-reads-saved-temp", c.Pos(ts.Pos()), "no *ast.ReturnStmt arm")
+		}
+	}
 	// function frame
 	fb := c.FuncDecl("compiler", "funcContext.translateFunctionBody")
 	if fb != nil {
